@@ -22,26 +22,20 @@ r5 = {"C01":"caught","C02":"missed first; caught after the sign-of-life schedule
 "C14":"caught","C15":"caught","C16":"caught",
 "C17":"missed first; caught after redirect chains generated from spec/RedirectChain.tla",
 "C18":"caught","C19":"caught","C20":"missed first; caught after play conversations through a relay that makes media controls absolute URLs"}
-r6 = {"C01":"missed first; caught after secure scenarios with payloads of the last 10 sizes (refused writes transmit nothing)",
-"C02":"missed first; caught after keep-alives from a new connection / OPTIONS keep-alives in c02t",
-"C03":"missed first; caught after the MPEG-4 audio configuration with IndexDeltaLength larger than IndexLength",
-"C04":"missed first; caught after an ANNOUNCE with a body of the documented maximum through both tunnels",
-"C05":"caught","C06":"caught",
-"C07":"missed first; caught after burst streams whose packets aggregate several small units",
-"C08":"missed first; caught after the MPEG-4 audio configuration 13/3/0 and aggregated packets of up to 9 units",
-"C09":"missed first; caught after user names and realms with a backslash",
-"C10":"missed first; caught after passwords / user names with outer spaces",
-"C11":"missed first; caught after prefix play_tcp2 and class frame_valid in HostileConn.tla",
-"C12":"caught",
-"C13":"missed first; caught after ctunnelabort (tunnel half aborted at the server's end of a library client) and the census of dialed sockets",
-"C14":"missed first; caught after long runs past the 24-bit loss field",
-"C15":"missed first; caught after the end-to-end scenario on a media with two formats",
-"C16":"caught",
-"C17":"missed first by C17 (caught by C18 as it stood); caught by C17 after application RTCP around the SRTCP size limit",
-"C18":"missed first; caught after the RTCP shape with profile extensions",
-"C19":"missed first; caught after non-consecutive client ports (gap) in Binding.tla",
-"C20":"missed first; caught after path escapes of '?', '%', '#'"}
-for rnd, tbl, logf in ((6, r6, '/tmp/wt6/confirm.log'),):
+r7 = {"C01":"missed first; caught after late secure readers meet formats of one media with different roll-over counters",
+"C02":"caught","C03":"missed first; caught after MPEG-TS groups of many TS packets and a limit that is not a multiple of 188",
+"C04":"missed first; caught after limit elements delivered in pieces (LimitSame)","C05":"caught",
+"C06":"missed first; caught after payload limits around sums of the few legal unit sizes",
+"C07":"missed first; caught after MPEG-1 video frames made of one fragmented slice","C08":"caught","C09":"caught","C10":"caught",
+"C11":"missed first; caught after class udp_no_ports in HostileConn.tla",
+"C12":"missed first; caught after the scripted server streams on the back channel with its own payload type",
+"C13":"missed first; caught after CloseStream / JoinRefused in StreamReaders.tla",
+"C14":"missed first; caught after the record-direction restart scenario",
+"C15":"missed first; caught after arrival times and B-frames in the step sequences","C16":"caught (repeats C16-6)",
+"C17":"not caught by C17 (only reachable over UDP, where C17 claims no completeness); caught by the registered C18 check, whose property it breaks first",
+"C18":"caught","C19":"missed first; caught after steal method FRAME",
+"C20":"missed first; caught after relay style cbpath (Content-Base reduced to path and query)"}
+for rnd, tbl, logf in ((7, r7, '/tmp/wt7/confirm.log'),):
     log = open(logf).read() if os.path.exists(logf) else ""
     for pid, res in tbl.items():
         d = '/verif/seeded/%s-%d' % (pid, rnd)
